@@ -66,10 +66,12 @@ META["C12"] = dict(
     text="Kernel-checked C12 (C12Ok: struct exists iff overrides exist; one field per override of the matching scalar type, Option exactly with a default; required/optional entries keyed by "
          "naga's key -- decimal @id else name -- from the override's own field with bool->1/0 or cast conversion; vertex/fragment helpers pass the map iff overrides exist) and "
          "C12_required_resolves (with pairwise distinct naga keys, the map entry found under an override's key is the value converted from its own field; parametric in the value type, so "
-         "independent of floating point). Evaluated on real output; tied by correspondence of the overrides section.",
-    design_ref="DESIGN.md section 5 (C12)",
-    note="Trusts: nagaKey transcription of naga's process_overrides; numeric `as f64` round trip outside the model; OverridesScalar checked per module.",
-    technique="Lean 4 proof + decidable spec on real output + differential correspondence",
+         "independent of floating point). Evaluated on real output; tied by correspondence of the overrides section. The numeric half is executed: OverrideConstants::constants() of the real "
+         "module (compiled by rustc) is run on 9 finite + 3 non-finite assignments per shader (extremes of i32/u32/f32, -0.0, subnormals, None/Some) and the map is resolved by the REAL naga "
+         "process_overrides: keys = exactly the supplied overrides, accepted, every supplied value is the literal the resolved module holds. Open known finding: non-finite f32 values.",
+    design_ref="DESIGN.md section 5 (C12), 13.7",
+    note="Trusts: nagaKey transcription (validated by the executed maps); numeric `as f64` round trip is observed by execution, not proved; OverridesScalar checked per module.",
+    technique="Lean 4 proof + decidable spec on real output + differential correspondence + executed map through the real naga process_overrides",
 )
 META["C13"] = dict(
     text="Kernel-checked C13 (no range and no constant without a push-constant variable; otherwise exactly one range 0..TypeInner::size referring to PUSH_CONSTANT_STAGES whose value is "
@@ -82,8 +84,9 @@ META["C13"] = dict(
 META["C14"] = dict(
     text="Kernel-checked C14 (C14Ok: ENTRY_<UPPER> constants carry the exact names; compute entries get <UPPER>_WORKGROUP_SIZE = workgroup size and create_<name>_pipeline targeting the "
          "entry by name; each fragment helper uses its own constant and asks for targetsNeeded = largest written @location + 1 targets (fragmentTargetCount_eq); each vertex helper's N and "
-         "buffer count equal its number of struct parameters; forwarders are the fixed templates). C14_legacy_counterexample documents the repaired defect (counting locations).",
-    design_ref="DESIGN.md section 5 (C14)",
+         "buffer count equal its number of struct parameters; forwarders are the fixed templates). C14_legacy_counterexample documents the repaired defect (counting locations). "
+         "The helpers of the real module are also RUN (rustc-compiled): returned entry_point string, number of targets / buffers.",
+    design_ref="DESIGN.md section 5 (C14), 13.7",
     note="Trusts: to_uppercase oracle; forwarder templates compared as normalised token text.",
     technique="Lean 4 proof + decidable spec on real output + differential correspondence",
 )
@@ -126,8 +129,8 @@ META["C16"] = dict(
     text="Kernel-checked C16_literal_roundtrip (for every source string and every way of escaping it that the Rust lexer allows, the literal token evaluates to exactly the source -- "
          "Ext.RustLex state machine, all strings, all escape choices), C16 (literal value = source / include_str! of exactly the path; create_shader_module template) and "
          "C16_include_only_source (include and embedded variants differ only in SOURCE). Partial: that prettyplease/rustfmt keep literal tokens is observed per case: the real token is "
-         "unescaped by the Lean RustLex AND by syn and both compared with the source.",
-    design_ref="DESIGN.md section 5 (C16)",
+         "unescaped by the Lean RustLex AND by syn and both compared with the source; and the SOURCE constant of the compiled real module is read back at run time (length + hash = input).",
+    design_ref="DESIGN.md section 5 (C16), 13.7",
     note="Trusts: Ext.RustLex transcription (validated against syn::LitStr::value on every literal); formatter behaviour observed.",
     technique="Lean 4 proof (round trip for all strings and escapings) + per-case unescape of the real literal + correspondence",
 )
@@ -160,12 +163,15 @@ META["C19"] = dict(
 META["C07"] = dict(
     text="Kernel-checked C07_structs (every generated `impl S` block: S is a struct of the module; exactly one attribute per @location member, in member order, carrying that member's "
          "location, the offset_of! of the field of the same name, and a format whose wgpu numeric type equals the member type's scalar kind, width and component count; count = number of "
-         "attributes; stride = size_of::<S>(); builtins contribute none), C07_format (format table vs WGSL type, every accepted type), getVertexInputStructs_mem (blocks exist only for struct "
-         "parameters of vertex entries) and the buffer count (C14). Partial: per-entry buffer order / uniqueness are evaluated on the real output; offsets and stride are symbolic "
-         "(rustc evaluates them); vertex-input validation is done by the REAL wgpu-core check_stage with the generated attributes. Open known finding: bare @location parameters.",
-    design_ref="DESIGN.md section 5 (C07)",
-    note="Trusts: WgpuVertex.formatInfo transcription; Ext.ReprC is not built: byte values of offsets / stride come from rustc in the batch harness.",
-    technique="Lean 4 proof + decidable spec on real output + the real wgpu-core check_stage as oracle",
+         "attributes; stride = size_of::<S>(); builtins contribute none), C07_format (format table vs WGSL type, every accepted type), C07_entries (one buffer per struct parameter in "
+         "parameter order, own step-mode parameter each), C07_impls_nodup (one block per struct: sort + dedup gives pairwise distinct names), getVertexInputStructs_mem, and C07_buffer: "
+         "for the #[repr(C)] layout of the emitted struct (Ext.ReprC: sizes / alignments of the emitted field types in all three representations, glam's 16-aligned Vec4 included) the buffer "
+         "layout passes wgpu-core's vertex-buffer rules (Ext.WgpuVertex: stride % 4, attribute inside the stride, offset % min(size,4)) under any device limit the struct fits in. "
+         "Evaluated on real output; vertex-input validation by the REAL wgpu-core check_stage; Ext.ReprC validated on every run against offset_of!/size_of evaluated by rustc on the real "
+         "modules, and the <entry>_entry helpers are RUN (each step-mode parameter reaches its own buffer). Open known finding: bare @location parameters.",
+    design_ref="DESIGN.md section 5 (C07), 13.7",
+    note="Trusts: WgpuVertex.formatInfo / bufferOk and Ext.ReprC transcriptions (validated against check_stage and rustc respectively); device limits are hypotheses.",
+    technique="Lean 4 proof + decidable spec on real output + real wgpu-core check_stage and rustc-executed generated code as oracles",
 )
 META["C10"] = dict(
     text="Kernel-checked C10_leaf (for every glam-representable member type -- f32/i32/u32 scalars and vectors, square float matrices, fixed arrays of those at any depth -- the (alignment, size) "
